@@ -1,0 +1,60 @@
+//go:build verif
+
+// Machine-checked contracts for package fbserver (comment-only; read by /verif's govc).
+
+package fbserver
+
+// ghost observation of the plugin chain (C20): how often the next handler was entered and with what
+//@ ghostvar nextCalls int
+//@ ghostvar nextW int
+//@ ghostvar nextR int
+//@ ghostvar nextCtx int
+//@ ufun maxans(int) int
+
+//@ extern github.com/coredns/coredns/plugin NextOrFailure
+//@ updates nextCalls, nextW, nextR, nextCtx
+//@ ensures nextCalls == old(nextCalls) + 1 && nextW == w && nextR == r && nextCtx == ctx
+
+// every handler of the chain is entered with a message that has a question (serveMux guarantees it)
+//@ extern github.com/coredns/coredns/plugin Handler.ServeDNS
+//@ updates nextCalls, nextW, nextR, nextCtx
+//@ requires len(arg2.Question) >= 1
+//@ ensures nextCalls == old(nextCalls) + 1 && nextW == arg1 && nextR == arg2 && nextCtx == arg0
+
+//@ extern github.com/facebookincubator/dns/dnsrocks/dnsserver WithMaxAnswer
+//@ pure
+//@ ensures uf.maxans(result) == masAns
+
+// serveMux (C13/C20): a message without a question gets a failure reply and never enters the chain;
+// otherwise the chain is entered exactly once with the same writer and message.
+//@ func serveMux.ServeDNS
+//@ updates nextCalls, nextW, nextR, nextCtx, nwritten, lastWritten, writtenAt
+//@ requires mux.defaultHandler != nil && req != nil
+//@ ensures[noquestion] len(req.Question) < 1 ==> nextCalls == old(nextCalls)
+//@ ensures[once] len(req.Question) >= 1 ==> nextCalls == old(nextCalls) + 1 && nextW == w && nextR == req && nwritten == old(nwritten)
+
+// maxAnswerHandler (C11/C20): passes the same writer and message on, once, with the configured maximum
+//@ func maxAnswerHandler.ServeDNS
+//@ updates nextCalls, nextW, nextR, nextCtx
+//@ ensures nextCalls == old(nextCalls) + 1 && nextW == w && nextR == r && uf.maxans(nextCtx) == mh.maxAnswer
+
+//@ func newMaxAnswerHandler
+//@ ensures i <= 0 ==> err != nil && result0 == nil
+//@ ensures i > 0 ==> err == nil && result0 != nil && result0.maxAnswer == i
+
+// anyHandler (C20): every query of type ANY (whatever its class) is answered here with the single
+// synthesized HINFO "RFC 8482" "" record and never reaches the database; everything else passes through.
+//@ func anyHandler.ServeDNS
+//@ updates nextCalls, nextW, nextR, nextCtx, nwritten, lastWritten, writtenAt
+//@ ghostret mm int = m
+//@ flag skip frame
+//@ requires r != nil && len(r.Question) >= 1 && w != nil
+//@ ensures[pass] r.Question[0].Qtype != dns.TypeANY ==> nextCalls == old(nextCalls) + 1 && nextW == w && nextR == r && nextCtx == ctx && nwritten == old(nwritten)
+//@ ensures[any-nodb] r.Question[0].Qtype == dns.TypeANY ==> nextCalls == old(nextCalls)
+//@ ensures[any-reply] r.Question[0].Qtype == dns.TypeANY && err == nil ==> nwritten == old(nwritten) + 1 && lastWritten == mm && asptr(mm, "dns.Msg").Id == r.Id && asptr(mm, "dns.Msg").Response && len(asptr(mm, "dns.Msg").Answer) == 1
+//@ ensures[any-hinfo] r.Question[0].Qtype == dns.TypeANY && err == nil ==> dyntype(asptr(mm, "dns.Msg").Answer[0]) == ptrtag("dns.HINFO") && asptr(asptr(mm, "dns.Msg").Answer[0], "dns.HINFO").Cpu == "RFC 8482" && asptr(asptr(mm, "dns.Msg").Answer[0], "dns.HINFO").Os == "" && asptr(asptr(mm, "dns.Msg").Answer[0], "dns.HINFO").Hdr.Ttl == 86400 && asptr(asptr(mm, "dns.Msg").Answer[0], "dns.HINFO").Hdr.Rrtype == dns.TypeHINFO && asptr(asptr(mm, "dns.Msg").Answer[0], "dns.HINFO").Hdr.Name == r.Question[0].Name
+
+//@ func anyHandler.Name
+//@ pure
+//@ func maxAnswerHandler.Name
+//@ pure
